@@ -7,6 +7,51 @@ TB = ("Trusted: Lean 4.33.0 kernel and the axioms printed by #print axioms for e
       "no native_decide); the Python correspondence harness and the JSON glue of the Lean driver; the named Python-semantics assumptions. "
       "The theorems are about the hand-written Lean model; the model is tied to /repo on every run by running model and implementation on the same "
       "generated cases (differences are reported), not by translation. ")
+
+SES = ("Session properties are checked on the abstract machine lean/Simpleline/Model/Machine.lean (MainLoop + ScreenScheduler + input pipeline as one instruction-list machine, programs = tables of public-API "
+       "actions), validated against the real code on every run: exact callback/handler sequence, exact stdout, outcome. ")
+CLAIMED_SESSION = {
+ "C01": ("Theorems: the queue is a stable priority queue (put places a signal behind everything at least as urgent), every queue of every reachable configuration is sorted, every take (main loop, waiting and non-waiting "
+         "processing) removes the head of the active queue, nothing else removes or reorders entries, each queue equals the replay of the history's enq/take events (C01_history). Correspondence: loop programs with 4..40 "
+         "equal-priority signals, urgent arrivals mid-batch, nested loops; oracle: most-urgent-then-oldest at every dispatch, per level.", "7 C01", SES + "A-PQ (heapq contract) is an assumption."),
+ "C02": ("Theorems: every handler call is for a handler registered for exactly the signal's class with its data; calls come only from the dispatch instruction visiting the live list in index order; an ordinary exception unwinds "
+         "exactly to the handler's catcher, enqueues exactly one exception signal of priority -20 and the next handler runs; -20 overtakes everything less urgent; the kill path. Correspondence: raising subsets, derived signal "
+         "classes, closes before raises; oracle: per-signal handler sequences, exceptions surface, kill = status 1 + blank line + stack dump + traceback.", "7 C02",
+         SES + "The trace-level 'exactly once per completed dispatch' clause is proved at instruction level (dispatch index order) and checked on sessions by the oracle."),
+ "C03": ("Theorems: routing (innermost level owning the source, else the active one), active = top level, every take is from the top level, signals held in non-top levels are never removed or reordered (multi-step: until taken), "
+         "source sets of non-active levels are fixed, open/close effects; and (Props/C03b, global code-shape invariant) the _mainloop activation of a level returns only after the level was closed, the caller's continuation is untouched "
+         "and resumed (under the decidable history hypotheses WFClose/WFDrain, shown necessary by kernel-checked counterexamples = known finding K1). Correspondence/oracle: routing recomputed from the API log, levels at return of execute_new_loop.",
+         "7 C03", SES + "K1 (second close before the innermost _mainloop regained control) is a known finding, excluded by WFClose/WFDrain; classified per case by the model's history flags."),
+ "C04": ("Theorems: refinement to an ideal stack (every transition changes the stack exactly as one ideal operation or not at all; replace keeps the modal flag; fresh entry identities), entries beneath keep their order, a screen is drawn "
+         "only while it is the top entry (the entry itself, by identity), the drawn entry is the ideal stack's top in the history, empty stack ends. Correspondence/oracle: one ideal operation between observations, API operations' ideal effect, drawn = top.",
+         "7 C04", SES + "The refresh-of-a-covered-screen case (setup changing the stack) is stated as it is (C04_refresh_top) with its counterexample."),
+ "C05": ("Theorems (Props/C05 over the code-shape invariant of Lemmas/Shape*): modal entries correspond to nested levels; push_screen_modal returns only after its level was closed, which only the close / failed setup of the modal entry or its replacement requests; "
+         "while it is open nothing beneath is refreshed or drawn and the entries beneath stay in place (under WFClose/WFDrain/WFQuiet, shown necessary). Correspondence/oracle: events between call and return of push_screen_modal, stack at return.",
+         "7 C05", SES + "K1 and K2 (close_loop drains pending signals of the closing level: the parent is processed inside the nested loop) are known findings, classified by the model's history flags."),
+ "C06": ("Theorems: the line read from the console is carried unmodified through InputReceived -> InputReady -> one-shot callback -> input(); EOF = empty line; the callback belongs to the asking screen with the arguments of that request; "
+         "one line per delivery, one InputReceived, one successful InputReady, at most one input() call; lines consumed in order, at most one reader. Correspondence/oracle: tame/app/dialog sessions; keys = subsequence of reads, receiver = most recent accepted requester, no hang with an undelivered line.",
+         "7 C06", SES + "Liveness is checked by the oracle on sessions, not proved. Reader timing is pinned at delivery points (instruction granularity)."),
+ "C07": ("Theorems: the classification table (both directions), the act step does exactly one thing per action (InputOutcome), the quit-dialog branch, the per-screen rejection counter (+1 / reset / independence), an exception in input() is contained. "
+         "Correspondence/oracle: an independent reference interpreter of the property predicts the whole callback sequence for value-only input() scripts, incl. 5/10 rejections and all dialog answers.", "7 C07", SES),
+ "C08": ("Theorems: who calls which callback with which arguments (full table), callbacks are logged only by their call step, ready is set only by a setup that ran the base method and never reset, no setup once ready, setup before refresh on the log, "
+         "refresh before show (trace and log), failed setup is discarded without refresh/draw/prompt, #closed callbacks + pending = #close operations. Correspondence/oracle: per-screen lifecycle checks with nested activations.", "7 C08",
+         SES + "Known finding K3: a setup() that pushes another screen and then fails gets the pushed screen discarded instead."),
+ "C09": ("Theorems: after force-quit no handler call is ever added, enqueues are discarded, execute_new_loop is a no-op, loop tests exit; an exit request drops every pending instruction of every depth up to run()'s catcher; the quit callback is logged at most once "
+         "with the registered argument; a returned run contains an exit or force-quit event; run() refuses an empty stack unless configured. Correspondence/oracle: stop requests at every depth/position, last modal screen closing, run() returns.", "7 C09", SES),
+ "C10": ("Theorems: a released wait ends only after a take of exactly the awaited class since it began (any nesting) or unreleased only when its level was stopped; tickets start unmarked; one dispatch marks all waiters of the class; a marked ticket returns at the next check "
+         "without another take; the non-waiting form takes one priority, never blocks, leaves the queue unchanged on a differing head. Correspondence/oracle: nested waits, same-named distinct classes, prompt return, single priority.", "7 C10", SES),
+ "C17": ("Theorems: the console is only appended to; every character written is newline, blank, '=', a framework literal character or a non-control character of an application string (no CR/backspace/ESC introduced; names reach the console only in the crash dump); "
+         "every draw is preceded by exactly spacer(width) unless disabled; every written chunk (separator, window lines, prompts) has lines within the width at every width; the crash dump is the only exception (shown necessary). Correspondence: exact byte stream; oracle: regex over raw stdout.",
+         "7 C17", SES + "Partial in the schedules dimension: the reader's prompt order relative to main-thread output is pinned by the harness."),
+ "C18": ("Theorems: pipeline invariants (valid ids, at most one reader, processing flag), refusal iff another request is outstanding without bypass (forgotten again, nothing written), a reader is started iff none is processing, hand-off (newest gets the line unmodified and successful, "
+         "each earlier one exactly one failed signal, idle afterwards), handler result fields and one-shot callback, the blocking wait returns iff received. Correspondence: bypassing screens and blocking requests in sessions; oracle: direct scenarios on InputHandler objects with an interpreter of the property.", "7 C18", SES),
+ "C19": ("Theorems over lean/Simpleline/Model/Threads.lean (labelled transition system of single shared accesses; every schedule = every accepted event sequence): lock discipline, the level list changes only under the lock and the submitter's snapshot stays the truth, "
+         "no duplicate ids, completed submissions are pending or dispatched, routing on the found and fallback paths, arrival numbers make equal priorities FIFO per queue. Correspondence = trace validation: the real code runs under a line-level controlled scheduler and its recorded shared accesses are replayed through the model.",
+         "7 C19", "Trusted: Lean kernel + axioms as printed; the thread adapter (harness-side logging subclasses of internals, cooperative locks, sys.settrace scheduler). A-ATOM: switches between source lines only, never inside queue.py. Bytecode-level and free-threaded interleavings are outside the claim."),
+ "C20": ("Theorem (lean/Simpleline/Model/GLoop.lean): on one level, for every state-passing handler program, on calm runs the GLib batch discipline and the MainLoop stable-priority discipline dispatch the same signals in the same order through the same program states; the need for Calm is a kernel-checked counterexample (G1). "
+         "Correspondence: both Lean disciplines against the two real loops on flat programs; differential run of every loop/app/tame case on the real MainLoop and the real GLibEventLoop over a GLib stand-in, with Calm evaluated by the Lean machine; divergences on non-calm runs are known findings G1-G4.",
+         "7 C20", "PARTIAL by construction: GLib is not installed, GLibEventLoop runs on harness/impl/fakegi (a stand-in written from the GLib docs, fidelity unverifiable here); the theorem covers the loop-level scheduling core on one level under Calm; nesting, waits, exceptions and the application layer are covered by the differential check only."),
+}
 CLAIMED = {
  "C11": ("Theorems for every CharClass, text and width >= 1 over the Lean model of textwrap.wrap + Widget._wrap_words + the typewriter: width, conservation of "
          "non-blank characters in order, line-break structure, no empty wrap line, blank lines, refusal, termination of the wrap loop. Correspondence: "
@@ -28,12 +73,15 @@ CLAIMED = {
          "other width in between, add after render. Correspondence: random render/add sequences on kept objects; oracle compares with a freshly built equal tree and scans the rendering modules for module-level state.",
          "7 C16", TB + "ColumnWidget only as used by CheckboxWidget; negative draw columns (CenterWidget with an over-wide child) are outside the model and not compared."),
 }
+CLAIMED.update(CLAIMED_SESSION)
 TECH = "Lean 4 theorems over a hand-written executable model + differential correspondence check model vs implementation + Python oracle on the implementation"
 checks = []; na = []
 for p in props:
     i = p["id"]
-    if i in CLAIMED and os.path.exists(os.path.join(HERE, "harness", "props", i + ".py")):
+    if i in CLAIMED and os.path.exists(os.path.join(HERE, "harness", "props", i + ".py")) and os.path.exists(os.path.join(HERE, "lean", "Simpleline", "Props", i + ".lean")):
         text, ref, note = CLAIMED[i]
+        if not note.startswith("Trusted") and not note.startswith("PARTIAL"): note = TB + note
+        if note.startswith("PARTIAL"): note = note + " " + TB
         checks.append({"property_id": i, "quick_cmd": "./check %s --tier quick" % i, "thorough_cmd": "./check %s --tier thorough" % i,
                        "evidence_file": "evidence/%s.json" % i, "replay_cmd_template": "./check replay {path}", "engine": "lean-model+correspondence",
                        "level_claimed": {"category": "proof", "text": text, "design_ref": "DESIGN.md section " + ref},
